@@ -421,7 +421,7 @@ def run_check(pid, tier, base_seed, n_runs=None, budget_s=None, workers=None):
         json.dump(evidence, f, indent=1, sort_keys=True)
     print(f"[{pid}] runs={agg['runs']} steps={agg['steps']} distinct_nontrivial={len(agg['sigs'])} "
           f"faults={sum(agg['faults'].values())} known_hits={sum(agg['known_hits'].values())} "
-          f"violations={len(reported)} determinism={det_result['second_process']}/{det_result['fresh_interpreter_hashseed1']} "
+          f"violations={len(reported)} violating_runs={len(viols)} determinism={det_result['second_process']}/{det_result['fresh_interpreter_hashseed1']} "
           f"slowest_run={agg['slowest'][0]}s(seed {agg['slowest'][1]}) wall={wall:.1f}s exit={exit_code}")
     return exit_code
 
